@@ -132,7 +132,11 @@ class Graph:
         self.merge = M.has_merge(self.parents)
 
     def base_case(self):
-        return dict(parents=[list(ps) for ps in self.parents], times=list(self.times), salt=self.salt, backend=self.backend)
+        d = dict(parents=[list(ps) for ps in getattr(self, "orig_parents", self.parents)], times=list(self.times), salt=self.salt,
+                 backend=self.backend.split("+")[0])
+        if getattr(self, "cut", None):
+            d["cut"] = [self.cut[0], self.cut[1]]
+        return d
 
 
 _fast_repo = None
@@ -1026,11 +1030,67 @@ def execute_generated(ctx, value, disk):
                 judge_commit_graph(ctx, g2, "graph", (op, args), before)
             for q, before in zip(wq, wanswers):
                 judge_commit_graph(ctx, g2, "walk", q, before)
+            if backend != "disk-cg-git-split" and n >= 3:
+                # the history is cut or re-wired *after* the commit-graph was written: a shallow boundary (through the
+                # handle that is open) or a graft (info/grafts, handle reopened).  Every query has to answer for the
+                # graph as cut/grafted - parents recorded in the commit-graph do not count
+                kind = "shallow" if (cgsel + n) % 2 else "graft"
+                g3 = cut_history(g2, kind, (n * 7 + len(gq)) % n)
+                if g3 is not None:
+                    g = g3
+                    for op, args in gq:
+                        judge_graph(ctx, g3, op, args, check="graph-cut")
+                        ctx.case(("X", kind, parents, times, op, args), nontrivial=graph_nontrivial(g3, op, args),
+                                 labels=["history-cut:" + kind, "commit-graph:" + backend, "op:" + _FN[op]])
+                    for q in wq:
+                        judge_walk(ctx, g3, q, check="walk-cut")
+                        ctx.case(("X", kind, parents, times, "walk", repr(sorted(q.items()))), nontrivial=True,
+                                 labels=["history-cut:" + kind, "commit-graph:" + backend, "op:walk"])
     finally:
         g.repo.close()
         import shutil
 
         shutil.rmtree(g.path, ignore_errors=True)
+
+
+def cut_history(g, kind, x0):
+    """Mark commit x shallow (no parents) or graft it onto other parents; returns the Graph of the history as it now
+    is (same ids), or None if no commit with parents is found.  x: first commit at or after x0 that has parents."""
+    from dulwich.repo import Repo
+
+    xs = [i for i in list(range(x0, g.n)) + list(range(x0)) if g.parents[i]]
+    if not xs:
+        return None
+    x = xs[0]
+    if kind == "shallow":
+        newp = ()
+        g.repo.update_shallow({g.ids[x]}, None)
+        repo = g.repo
+    else:
+        # other parents: the root-most commit and, for odd x, x's last old parent as well (still acyclic: parents < x)
+        newp = tuple(dict.fromkeys([0] + ([g.parents[x][-1]] if x % 2 else [])))
+        if newp == g.parents[x]:
+            newp = ()
+        with open(os.path.join(g.path, "info", "grafts") if os.path.isdir(os.path.join(g.path, "info")) else os.path.join(g.path, ".git", "info", "grafts"), "wb") as f:
+            f.write(g.ids[x] + b"".join(b" " + g.ids[p] for p in newp) + b"\n")
+        g.repo.close()
+        repo = Repo(g.path)
+    parents = [tuple(ps) for ps in g.parents]
+    parents[x] = newp
+    g3 = Graph.__new__(Graph)
+    g3.__dict__.update(g.__dict__)
+    g3.repo = repo
+    g3.parents = tuple(parents)
+    g3.anc = M.anc_masks(g3.parents)
+    g3.skew = M.has_skew(g3.parents, g3.times)
+    g3.monotone = not g3.skew
+    g3.strict = all(g3.times[p] < g3.times[i] for i, ps in enumerate(g3.parents) for p in ps)
+    g3.clock = "strict-clock" if g3.strict else "non-strict-clock"
+    g3.merge = M.has_merge(g3.parents)
+    g3.backend = g.backend + "+" + kind
+    g3.orig_parents = g.parents
+    g3.cut = (kind, x, list(newp))
+    return g3
 
 
 def judge_commit_graph(ctx, g2, kind, q, before, check="commit-graph"):
@@ -1442,6 +1502,17 @@ def replay(ctx, check, case):
             g2 = with_commit_graph(g, case["backend"])
             g = g2
             judge_commit_graph(ctx, g2, case["kind"], q, before)
+        finally:
+            g.repo.close()
+    elif check in ("graph-cut", "walk-cut"):
+        g = build(ctx, case)
+        try:
+            g3 = cut_history(g, case["cut"][0], case["cut"][1])
+            g = g3
+            if check == "graph-cut":
+                judge_graph(ctx, g3, case["op"], tuple(case["args"]), check=check)
+            else:
+                judge_walk(ctx, g3, case["q"], check=check)
         finally:
             g.repo.close()
     elif check == "walk-paths":
